@@ -746,4 +746,89 @@ theorem getI_spec (little : Bool) (W : Nat) (buf : Buf) (size off len : Nat) (hW
   exact signExtend_spec W _ _ hW0 hW64 (by omega) (fieldOf_lt _ _)
 
 
+/-! ### fuel sufficiency -/
+
+theorem get?_ne_fuel (b : Buf) (i : Nat) : get? b i ≠ .error .fuel := by
+  unfold get?; cases b[i]? <;> simp
+
+theorem set?_ne_fuel (b : Buf) (i v : Nat) : set? b i v ≠ .error .fuel := by
+  unfold set?; split <;> simp
+
+/-- fuel sufficiency: with fuel ≥ the number of bits left the loop never runs out of fuel, whatever the buffers -/
+theorem copyLoop_no_fuel (fuel : Nat) : ∀ (dst : Buf) (dOff : Nat) (src : Buf) (sOff lastBit : Nat),
+    lastBit - sOff ≤ fuel → copyLoop fuel dst dOff src sOff lastBit ≠ .error .fuel := by
+  induction fuel with
+  | zero =>
+    intro dst dOff src sOff lastBit h
+    have : ¬ lastBit > sOff := by omega
+    simp [copyLoop, this]
+  | succ fuel ih =>
+    intro dst dOff src sOff lastBit h
+    rw [copyLoop]
+    by_cases hgt : lastBit > sOff
+    · rw [if_pos hgt]
+      dsimp only
+      generalize hsize : chooseMin (8 - if sOff % 8 > dOff % 8 then sOff % 8 else dOff % 8) (lastBit - sOff) = size
+      have hsz : 1 ≤ size := by rw [chooseMin_eq] at hsize; split at hsize <;> omega
+      simp only [bind, Except.bind]
+      cases h1 : get? src (sOff / 8) with
+      | error e => intro c; injection c with c; exact get?_ne_fuel _ _ (h1.trans (by rw [c]))
+      | ok s =>
+        simp only []
+        cases h2 : get? dst (dOff / 8) with
+        | error e => intro c; injection c with c; exact get?_ne_fuel _ _ (h2.trans (by rw [c]))
+        | ok d =>
+          simp only []
+          cases h3 : set? dst (dOff / 8) (mergeByte d (((((s >>> (sOff % 8)) % 256) <<< (dOff % 8)) % 256) &&& 255)
+              (((((1 <<< size) - 1) <<< (dOff % 8)) &&& 255) % 256)) with
+          | error e => intro c; injection c with c; exact set?_ne_fuel _ _ _ (h3.trans (by rw [c]))
+          | ok dst' => exact ih dst' _ src _ lastBit (by omega)
+    · rw [if_neg hgt]; simp
+
+theorem copyBits_no_fuel (dst : Buf) (dOff len : Nat) (src : Buf) (sOff : Nat) :
+    copyBits dst dOff len src sOff ≠ .error .fuel := by
+  unfold copyBits
+  by_cases hal : sOff % 8 = 0 ∧ dOff % 8 = 0
+  · rw [if_pos hal]
+    intro c
+    -- the aligned branch has no loop with fuel: every error comes from a checked access
+    simp only [bind, Except.bind] at c
+    have hm : ∀ n dst pd ps, memmove dst pd src ps n ≠ .error .fuel := by
+      intro n
+      induction n with
+      | zero => intro dst pd ps; simp [memmove]
+      | succ n ih =>
+        intro dst pd ps
+        rw [memmove]
+        simp only [bind, Except.bind]
+        cases h1 : get? src ps with
+        | error e => intro c; injection c with c; exact get?_ne_fuel _ _ (h1.trans (by rw [c]))
+        | ok b =>
+          simp only []
+          cases h2 : set? dst pd b with
+          | error e => intro c; injection c with c; exact set?_ne_fuel _ _ _ (h2.trans (by rw [c]))
+          | ok d => exact ih d _ _
+    rw [memmove_guard] at c
+    cases h1 : memmove dst (dOff / 8) src (sOff / 8) (len / 8) with
+    | error e => rw [h1] at c; injection c with c; exact hm _ _ _ _ (h1.trans (by rw [c]))
+    | ok d1 =>
+      rw [h1] at c
+      simp only [] at c
+      by_cases hlm : len % 8 ≠ 0
+      · rw [if_pos hlm] at c
+        cases h2 : get? d1 (dOff / 8 + len / 8) with
+        | error e => rw [h2] at c; injection c with c; exact get?_ne_fuel _ _ (h2.trans (by rw [c]))
+        | ok ld =>
+          rw [h2] at c
+          simp only [] at c
+          cases h3 : get? src (sOff / 8 + len / 8) with
+          | error e => rw [h3] at c; injection c with c; exact get?_ne_fuel _ _ (h3.trans (by rw [c]))
+          | ok ls =>
+            rw [h3] at c
+            exact set?_ne_fuel _ _ _ c
+      · rw [if_neg hlm] at c; exact absurd c (by simp)
+  · rw [if_neg hal]
+    exact copyLoop_no_fuel len dst dOff src sOff (sOff + len) (by omega)
+
+
 end NunavutVerif.Bits
